@@ -76,3 +76,98 @@ theorem swap_F (sle sbe : Nat) (h : sle % 65535 = (256 * sbe) % 65535) (hz : sle
     rw [sw, r2.2.2]
     omega
 end Ck
+
+namespace Ck
+abbrev Bytes := List UInt8
+
+/-! model of `packet_utils.checksum` (with the odd-length line repaired: `data[-1:] + b'\0'`) on a little-endian host -/
+def wordsLE : Bytes → List Nat
+  | a :: b :: r => (a.toNat + 256 * b.toNat) :: wordsLE r
+  | [a] => [a.toNat]
+  | [] => []
+def sumLE (d : Bytes) : Nat := (wordsLE d).sum
+def checksum (d : Bytes) : Nat := ntohs (65535 - fold2 (sumLE d))
+
+/-! RFC 1071: big-endian 16-bit words, odd byte padded on the right, end-around carry until it fits, complement -/
+def wordsBE : Bytes → List Nat
+  | a :: b :: r => (256 * a.toNat + b.toNat) :: wordsBE r
+  | [a] => [256 * a.toNat]
+  | [] => []
+def sumBE (d : Bytes) : Nat := (wordsBE d).sum
+def foldAll (s : Nat) : Nat := if h : s < 65536 then s else foldAll (s / 65536 + s % 65536)
+  termination_by s
+  decreasing_by omega
+def rfc1071 (d : Bytes) : Nat := 65535 - foldAll (sumBE d)
+
+theorem foldAll_eq_F (s : Nat) : foldAll s = F s := by
+  induction s using Nat.strongRecOn with
+  | _ s ih =>
+    unfold foldAll
+    by_cases h : s < 65536
+    · simp only [h, dite_true]; unfold F; split <;> omega
+    · simp only [h, dite_false]
+      rw [ih _ (by omega)]
+      unfold F
+      have hs : s = 65536 * (s / 65536) + s % 65536 := (Nat.div_add_mod s 65536).symm
+      have hr : s % 65536 < 65536 := Nat.mod_lt _ (by decide)
+      generalize s / 65536 = c at *
+      generalize s % 65536 = r at *
+      subst hs
+      have hc : 0 < c := by omega
+      have h1 : ¬ (c + r = 0) := by omega
+      have h2 : ¬ (65536 * c + r = 0) := by omega
+      simp only [h1, h2, if_false]
+      have e : 65536 * c + r - 1 = 65535 * c + (c + r - 1) := by omega
+      rw [e, Nat.mul_add_mod]
+
+theorem ntohs_compl (x : Nat) (h : x < 65536) : ntohs (65535 - x) = 65535 - ntohs x := by
+  unfold ntohs
+  have hx : x = 256 * (x / 256) + x % 256 := (Nat.div_add_mod x 256).symm
+  have hb : x % 256 < 256 := Nat.mod_lt _ (by decide)
+  generalize x / 256 = a at *
+  generalize x % 256 = b at *
+  have ha : a < 256 := by omega
+  subst hx
+  have e : 65535 - (256 * a + b) = 256 * (255 - a) + (255 - b) := by omega
+  rw [e]
+  have d1 : (256 * (255 - a) + (255 - b)) % 256 = 255 - b := by omega
+  have d2 : (256 * (255 - a) + (255 - b)) / 256 = 255 - a := by omega
+  have d3 : (256 * a + b) % 256 = b := by omega
+  have d4 : (256 * a + b) / 256 = a := by omega
+  rw [d1, d2]
+  have d5 : (255 - a) % 256 = 255 - a := Nat.mod_eq_of_lt (by omega)
+  have d6 : a % 256 = a := Nat.mod_eq_of_lt ha
+  rw [d5, d6]
+  omega
+
+theorem sums_rel : ∀ d : Bytes, sumLE d % 65535 = (256 * sumBE d) % 65535 ∧ (sumLE d = 0 ↔ sumBE d = 0)
+                     ∧ sumLE d ≤ 65535 * ((d.length + 1) / 2)
+  | [] => by simp [sumLE, sumBE, wordsLE, wordsBE]
+  | [a] => by
+    have := a.toNat_lt
+    simp only [sumLE, sumBE, wordsLE, wordsBE, List.sum_cons, List.sum_nil, List.length_cons, List.length_nil]
+    refine ⟨by omega, by omega, by omega⟩
+  | a :: b :: r => by
+    have ha := a.toNat_lt
+    have hb := b.toNat_lt
+    obtain ⟨h1, h2, h3⟩ := sums_rel r
+    simp only [sumLE, sumBE, wordsLE, wordsBE, List.sum_cons, List.length_cons] at *
+    generalize (wordsLE r).sum = S at *
+    generalize (wordsBE r).sum = S' at *
+    refine ⟨by omega, by omega, by omega⟩
+
+/-- C14 `checksum_rfc1071` -/
+theorem checksum_rfc1071 (d : Bytes) (hlen : d.length ≤ 131072) : checksum d = rfc1071 d := by
+  obtain ⟨h1, h2, h3⟩ := sums_rel d
+  have hb : sumLE d < 4294967296 := by
+    have : (d.length + 1) / 2 ≤ 65536 := by omega
+    calc sumLE d ≤ 65535 * ((d.length + 1) / 2) := h3
+      _ ≤ 65535 * 65536 := Nat.mul_le_mul_left _ this
+      _ < 4294967296 := by decide
+  unfold checksum rfc1071
+  rw [fold2_eq _ hb, foldAll_eq_F]
+  have hF : F (sumLE d) < 65536 := by unfold F; split <;> omega
+  rw [ntohs_compl _ hF, swap_F _ _ h1 h2]
+
+#print axioms checksum_rfc1071
+end Ck
